@@ -1,3 +1,196 @@
 package main
 
-func recMain(args []string) {}
+// c09 rec: call graphs of up to 4 callables (plain functions, two closures of one
+// definition) whose nested call chain may reach a function that is already
+// active, through plain calls, lambdas and callbacks from sorted/min/max.
+// Every chain is run with Recursion off (a re-entry must fail with "called
+// recursively", naming the re-entered function) and on (must succeed).  The
+// frames pushed by the chain are printed as events for the Coq model of the
+// stack scan.
+
+import (
+	"flag"
+	"fmt"
+	"strings"
+
+	"go.starlark.net/starlark"
+	"go.starlark.net/syntax"
+
+	"verifharness/internal/hx"
+)
+
+type callable struct {
+	Name string
+	FV   int
+	Code int
+}
+
+type recCase struct {
+	Kind    string         `json:"kind"` // "rec"
+	Src     string         `json:"src"`
+	Rec     bool           `json:"rec"`
+	Chain   []string       `json:"chain"`
+	Events  [][]int        `json:"events"` // [0,fv,code] call fn; [1,b] call builtin; [2] return
+	Codes   map[string]int `json:"codes"`
+	Obs     string         `json:"obs"`    // "ok:<n>" | "recursion:<fn>" | "other:..."
+	Expect  string         `json:"expect"` // from the rule: "ok:<n>" | "recursion:<fn>"
+	Problem string         `json:"problem,omitempty"`
+}
+
+var edgeKinds = []string{"direct", "lambda", "sorted", "min", "max"}
+
+func edgeExpr(kind string) (pre string, call string) {
+	switch kind {
+	case "direct":
+		return "", "chain[0](chain[1:])"
+	case "lambda":
+		return "", "(lambda: chain[0](chain[1:]))()"
+	}
+	// callbacks from a built-in: the key function runs while the built-in's frame is active
+	return "acc = []\n    " + kind + "([1], key=lambda x: acc.append(chain[0](chain[1:])))\n    ", "acc[0]"
+}
+
+func recMain(argv []string) {
+	fs := flag.NewFlagSet("rec", flag.ExitOnError)
+	seed := fs.Uint64("seed", 1, "seed")
+	n := fs.Int("n", 300, "call graphs")
+	fs.Parse(argv)
+	r := hx.NewRand(*seed)
+	problems := 0
+	dist := map[string]int{}
+	for i := 0; i < *n; i++ {
+		// the callables: p0..p3 plain, k0a/k0b two closures of one def
+		pool := []callable{{"p0", 0, 0}, {"p1", 1, 1}, {"p2", 2, 2}, {"p3", 3, 3}, {"k0a", 20, 10}, {"k0b", 21, 10}}
+		edge := map[int]string{}
+		for _, c := range []int{0, 1, 2, 3, 10} {
+			edge[c] = edgeKinds[r.Intn(len(edgeKinds))]
+		}
+		var b strings.Builder
+		for _, c := range []int{0, 1, 2, 3} {
+			pre, call := edgeExpr(edge[c])
+			fmt.Fprintf(&b, "def p%d(chain):\n    if not chain:\n        return 0\n    %sreturn 1 + %s\n", c, pre, call)
+		}
+		pre, call := edgeExpr(edge[10])
+		fmt.Fprintf(&b, "def mk0():\n    def inner(chain):\n        if not chain:\n            return 0\n        %sreturn 1 + %s\n    return inner\n",
+			strings.ReplaceAll(pre, "\n    ", "\n        "), call)
+		b.WriteString("k0a = mk0()\nk0b = mk0()\n")
+		// the chain: up to 4 distinct callables, length up to 6
+		m := 1 + r.Intn(4)
+		var chosen []callable
+		for len(chosen) < m {
+			c := pool[r.Intn(len(pool))]
+			dup := false
+			for _, x := range chosen {
+				if x.Name == c.Name {
+					dup = true
+				}
+			}
+			if !dup {
+				chosen = append(chosen, c)
+			}
+		}
+		L := 1 + r.Intn(6)
+		var chain []callable
+		for j := 0; j < L; j++ {
+			chain = append(chain, chosen[r.Intn(len(chosen))])
+		}
+		if r.Intn(3) == 0 { // an acyclic chain: each callable code once
+			seen := map[int]bool{}
+			var ac []callable
+			for _, c := range chain {
+				if !seen[c.Code] {
+					seen[c.Code] = true
+					ac = append(ac, c)
+				}
+			}
+			chain = ac
+		}
+		var names []string
+		for _, c := range chain {
+			names = append(names, c.Name)
+		}
+		// two runs in sequence: frames of the first run must be gone when the second starts
+		fmt.Fprintf(&b, "r1 = %s([%s])\nr2 = %s([%s])\n", chain[0].Name, strings.Join(names[1:], ", "), chain[0].Name, strings.Join(names[1:], ", "))
+		src := b.String()
+		// expectation from the rule: the first callable whose code is already active fails
+		firstBad := -1
+		for j := range chain {
+			for k := 0; k < j; k++ {
+				if chain[k].Code == chain[j].Code {
+					firstBad = j
+				}
+			}
+			if firstBad >= 0 {
+				break
+			}
+		}
+		// events of one run (assuming every call enters): toplevel, then the nested chain
+		events := [][]int{{0, 500, 500}}
+		depthFrames := []int{}
+		for j, c := range chain {
+			if j == 0 {
+				events = append(events, []int{0, c.FV, c.Code})
+				depthFrames = append(depthFrames, 1)
+				continue
+			}
+			caller := chain[j-1]
+			pushed := 1
+			switch edge[caller.Code] {
+			case "lambda":
+				events = append(events, []int{0, 900, 100 + caller.Code})
+				pushed = 2
+			case "sorted", "min", "max":
+				events = append(events, []int{1, 1}, []int{0, 900, 100 + caller.Code})
+				pushed = 3
+			}
+			events = append(events, []int{0, c.FV, c.Code})
+			depthFrames = append(depthFrames, pushed)
+		}
+		for j := len(depthFrames) - 1; j >= 0; j-- {
+			for k := 0; k < depthFrames[j]; k++ {
+				events = append(events, []int{2})
+			}
+		}
+		events = append(events, []int{2}) // the toplevel returns
+		codes := map[string]int{"<toplevel>": 500, "lambda": -1}
+		for _, c := range pool {
+			codes[c.Name] = c.Code
+		}
+		codes["inner"] = 10
+		for _, rec := range []bool{false, true} {
+			thread := &starlark.Thread{Name: "c09rec"}
+			thread.SetMaxExecutionSteps(1000000)
+			g, err := starlark.ExecFileOptions(&syntax.FileOptions{Recursion: rec}, thread, "g.star", src, nil)
+			obs := ""
+			if err == nil {
+				obs = "ok:" + g["r1"].String() + "," + g["r2"].String()
+			} else if i := strings.Index(err.Error(), "function "); i >= 0 && strings.Contains(err.Error(), "called recursively") {
+				rest := err.Error()[i+len("function "):]
+				obs = "recursion:" + rest[:strings.Index(rest, " ")]
+			} else {
+				obs = "other:" + err.Error()
+			}
+			expect := fmt.Sprintf("ok:%d,%d", len(chain)-1, len(chain)-1)
+			if !rec && firstBad >= 0 {
+				nm := chain[firstBad].Name
+				if chain[firstBad].Code == 10 {
+					nm = "inner"
+				}
+				expect = "recursion:" + nm
+			}
+			c := &recCase{Kind: "rec", Src: src, Rec: rec, Chain: names, Events: events, Codes: codes, Obs: obs, Expect: expect}
+			if obs != expect {
+				c.Problem = fmt.Sprintf("recursion=%v: observed %s, the rule gives %s", rec, obs, expect)
+				problems++
+			}
+			key := "on"
+			if !rec {
+				key = "off"
+			}
+			dist[key+":"+strings.SplitN(obs, ":", 2)[0]]++
+			hx.Emit(c)
+		}
+	}
+	hx.Emit(map[string]any{"kind": "recsummary", "graphs": *n, "runs": 2 * *n, "problems": problems, "dist": dist})
+	hx.Flush()
+}
